@@ -79,7 +79,9 @@ func newPos(l *lookup, fileName, funcName string, line, column int) pos {
 	// return struct{}{}
 	fileNameIdx := l.Index("#" + fileName)
 	funcNameIdx := l.Index("#" + funcName)
-	return pos((fileNameIdx << 48) | (funcNameIdx << 32) | (line << 16) | column)
+	// every component is masked to the 16 bits info() reads back, so a line or
+	// column beyond 65535 cannot spill into the neighbouring name index
+	return pos(fileNameIdx&0xffff)<<48 | pos(funcNameIdx&0xffff)<<32 | pos(line&0xffff)<<16 | pos(column&0xffff)
 }
 
 func (p pos) IsZero() bool {
